@@ -24,7 +24,7 @@ pub struct Managed {
 }
 
 const NAMES: &[&str] = &["fltr-a", "fltr-b.1", "p_2", "AS65000-in", "X", "fltr-long-name-with-many-parts-0123456789"];
-const ESC_NAMES: &[&str] = &["a&b", "x<y", "q>r", "m&amp;n", "it's", "say \"hi\"", " lead", "trail "];
+const ESC_NAMES: &[&str] = &["a&b", "x<y", "q>r", "m&amp;n", "lt-&lt;-peer", "t&#9;s", "it's", "say \"hi\"", " lead", "trail "];
 const BAD_ANNOTATIONS: &[&str] = &["error!", "AS-FOO AND", "{ 10.0.0.0/33 }", "", "AS-FOO }", "((AS1)", "{ 10.0.0.0/8 ^+ "];
 
 fn gen_range(r: &mut Prng, fam: u8) -> Range {
@@ -247,10 +247,20 @@ pub fn run_histories(cfg: &Cfg, prop: Prop) -> i32 {
                     let unedited = eph.clone();
                     let name = names[r.below(names.len())].clone();
                     if let Some(t) = eph.policies.get_mut(&name).and_then(|p| p.terms.iter_mut().find(|t| t.action == Some(junos::Action::Accept))) {
-                        let addr = if t.family.as_deref() == Some("inet6") { "2001:db8:ffff::/48" } else { "203.0.113.0/24" };
-                        t.filters.insert((addr.to_string(), (*r.pick(&["orlonger", "exact", "longer"])).to_string()));
+                        if r.chance(1, 3) {
+                            // ... or with a term of the operator's own naming (the agent tells the
+                            // terms apart by <family> when reading and by <name> when writing)
+                            t.name = (*r.pick(&["v4", "ipv4-prefixes", "inet6", "inet", "accept-these"])).to_string();
+                            if Some(t.name.as_str()) == t.family.as_deref() {
+                                t.name = "custom".into();
+                            }
+                            labels.push(format!("{name}:hand-edited-term-name"));
+                        } else {
+                            let addr = if t.family.as_deref() == Some("inet6") { "2001:db8:ffff::/48" } else { "203.0.113.0/24" };
+                            t.filters.insert((addr.to_string(), (*r.pick(&["orlonger", "exact", "longer"])).to_string()));
+                            labels.push(format!("{name}:hand-edited-route-filter"));
+                        }
                         hotfixed = Some(unedited);
-                        labels.push(format!("{name}:hand-edited-route-filter"));
                         rep.count("runs_over_a_hand_edited_installed_policy");
                     }
                 }
@@ -770,6 +780,47 @@ pub fn run_c16(cfg: &Cfg) -> i32 {
         }
         if rep.samples.len() < rep.max_samples && i % 3001 == 17 {
             rep.sample(json!({"config": clip(&text, 900), "expected_selection": want}));
+        }
+    }
+    // two statements that both qualify and bear the same name (spelled alike, or one of them with
+    // a character reference) but different expressions: a name is a key, there is no "exactly the
+    // qualifying statements" to manage any more. Refusing the configuration manages nothing and is
+    // safe; picking one of the two silently is a wrong selection.
+    let nd = cfg.count(300, 30_000);
+    for i in 0..nd {
+        let idx = cfg.case_index(i);
+        let mut r = cfg.prng("C16-duplicates", idx);
+        let name = *r.pick(&names_plain);
+        let (e1, e2) = ("AS-ALPHA", "AS-BETA OR AS65001");
+        let mut nodes = vec![candidate_policy(name, &format!("/* bgpfu-fltr: {e1} */"), None)];
+        for _ in 0..r.below(3) {
+            let other = *r.pick(&["other-1", "other-2", "other-3"]);
+            if !nodes.iter().any(|n: &N| n.kids.iter().any(|k| k.text.as_deref() == Some(other))) {
+                nodes.push(gen_stmt(&mut r, other).node);
+            }
+        }
+        nodes.push(candidate_policy("@@DUP@@", &format!("/* bgpfu-fltr: {e2} */"), if r.chance(1, 2) { Some(true) } else { None }));
+        if r.chance(1, 2) {
+            nodes.reverse();
+        }
+        let tree = config_data(nodes);
+        let spelled = if r.chance(1, 2) {
+            name.to_string()
+        } else {
+            let mut cs = name.chars();
+            let first = cs.next().unwrap_or('x');
+            format!("&#{};{}", first as u32, cs.as_str())
+        };
+        let text = dom::serialise(&tree, &Style { indent: r.chance(1, 2), ..Style::default() }).replace("@@DUP@@", &spelled);
+        rep.case(Some(text.as_bytes()));
+        rep.count("configs_with_two_qualifying_statements_of_one_name");
+        match agent::verif::read_candidates(&text) {
+            Err(_) => rep.count("duplicate_name:configuration_refused"),
+            Ok(got) => rep.violation(
+                "duplicate-name-among-qualifying-statements:one-silently-dropped",
+                &format!("two qualifying statements named {name:?} with the expressions {e1:?} and {e2:?}; the reader selected {got:?}"),
+                json!({"config": clip(&text, 1500), "case_index": idx, "seed": cfg.seed}),
+            ),
         }
     }
     rep.finish()
